@@ -58,6 +58,11 @@ func (t *T) Transform() {
 		t.A++
 	}
 	t.S = strings.TrimLeft(t.S, " ")
+	// sets a field that may carry an upper/lower constraint: the schema's case transform has to
+	// come AFTER this hook
+	if t.I8 == 2 {
+		t.Emb.Z += "x"
+	}
 }
 
 var errHook = errors.New("rejected by Validate")
